@@ -23,7 +23,9 @@ def handle_case(draw, broker):
         mx = draw(st.integers(0, 3))
         msgs.append({"id": f"h{i}", "max": mx, "tried": draw(st.integers(0, mx + 1)),
                      "defer_by": draw(st.sampled_from([None, None, 2.0])),
-                     "actions": draw(st.lists(st.tuples(st.sampled_from(ACTIONS), st.sampled_from([None, 0.0, 1.5])).map(list),
+                     # [action, next_retry, fault]: with `fault` the broker call behind the action fails once (connection error)
+                     "actions": draw(st.lists(st.tuples(st.sampled_from(ACTIONS), st.sampled_from([None, 0.0, 1.5]),
+                                                        st.sampled_from([False, False, False, False, True])).map(list),
                                               min_size=1, max_size=6))})
     return {"broker": broker, "seed": draw(st.integers(0, 999)), "category": cat, "msgs": msgs,
             # the level the host application gave the "repid" logger (at DEBUG every log line of the library gets formatted)
@@ -42,6 +44,18 @@ async def _handles(loop, case, out: Outcome):
     await conn.connect()
     raw = conn.message_broker
     await raw.queue_declare("qh")
+    # one-shot broker fault: the next ack / nack / reject / requeue of the real broker raises before it does anything
+    fault = {"armed": False}
+    real = object.__getattribute__(raw, "_real")
+    for opn in ("ack", "nack", "reject", "requeue"):
+        def mk(orig):
+            async def call(*a, **k):
+                if fault["armed"]:
+                    fault["armed"] = False
+                    raise ConnectionError("broker unreachable")
+                return await orig(*a, **k)
+            return call
+        setattr(real, opn, mk(getattr(real, opn)))
     cat = case["category"]
     specs = {}
     for m in case["msgs"]:
@@ -82,24 +96,48 @@ async def _handles(loop, case, out: Outcome):
                 out.v("handle-category", f"message from the {cat} category reports category {msg.category}")
             usable = True
             tried = msg.parameters.retries.already_tried
-            for act, nr in m["actions"]:
+            for act, nr, *rest in m["actions"]:
+                faulty = bool(rest and rest[0])
                 before = len(spy.events)
                 kw = {}
                 if act in ("retry", "force_retry") and nr is not None:
                     kw["next_retry"] = timedelta(seconds=nr)
                 t_call = loop.time()
+                params_before = msg.parameters
+                fault["armed"] = faulty
                 try:
                     await getattr(msg, act)(**kw)
                     raised = None
                 except ValueError as e:
                     raised = e
+                except ConnectionError as e:
+                    raised = e
                 except Exception as e:  # noqa: BLE001
                     out.v("handle-wrong-exception", f"{act} on a {cat} handle raised {type(e).__name__}: {e}")
                     raised = e
+                broker_failed = faulty and not fault["armed"]
+                fault["armed"] = False
                 calls = spy.events[before:]
                 tag = f"{act} on {cat} handle {msg.key.id_} (tried {tried}/{m['max']}, usable={usable})"
                 refused_cat = act in ("nack", "retry", "force_retry") and cat != "NORMAL"
                 refused_budget = act == "retry" and tried >= m["max"]
+                if broker_failed:
+                    # the broker call behind an accepted action failed: the action did not succeed, so the handle is as it was -
+                    # usable, same retry state - and the caller saw the error
+                    out.cls("broker-call-failed")
+                    if not isinstance(raised, ConnectionError):
+                        out.v("broker-error-swallowed", f"{tag}: the broker call failed but the action returned {raised!r}")
+                    if msg.read_only:
+                        out.v("failed-action-consumed-handle", f"{tag}: the broker call failed, yet the handle is read-only now")
+                    # (only the retry state is judged - it decides whether later actions are accepted; the following actions of the
+                    #  sequence are judged against the unchanged counter as well)
+                    if msg.parameters.retries != params_before.retries:
+                        out.v("failed-action-changed-handle", f"{tag}: the broker call failed, yet the handle's retry state changed from "
+                              f"{params_before.retries} to {msg.parameters.retries}")
+                    continue
+                if isinstance(raised, ConnectionError):
+                    out.v("handle-wrong-exception", f"{tag}: raised {raised!r} although no broker fault was injected")
+                    continue
                 if not usable or refused_cat or refused_budget:
                     if raised is None:
                         why = "the handle was already used" if not usable else ("its category" if refused_cat else "the spent retry budget")
@@ -135,7 +173,7 @@ async def _handles(loop, case, out: Outcome):
                     out.v("handle-still-writable", f"{tag}: succeeded but the handle does not report read_only")
     finally:
         await agen.aclose()
-    seqs = [a for m in case["msgs"] for a, _ in m["actions"]]
+    seqs = [a[0] for m in case["msgs"] for a in m["actions"]]
     out.nontrivial = any(len(m["actions"]) >= 2 for m in case["msgs"])
     out.cls("broker-" + case["broker"], "category-" + cat)
 
